@@ -444,6 +444,10 @@ def main(argv=None):
             small = shrink_case(case, fails) if len(ck.violations) < 3 else case
             r2, a2, b2, m2 = run_impl(small, Event, fpi, labels)
             clause = bad.split(":")[0]
+            if kind == "isect":
+                bad = (("not-modified: " + m2) if (unaligned and m2) else oracle_isect(a2, b2, r2, m2, labels)) or bad
+            else:
+                bad = oracle_union(a2, b2, r2, labels) or bad
             ck.failing_input(f"C09:{kind}:{clause}", f"{kind}: {bad}",
                              {"call": "filter_period_intersect" if kind == "isect" else "period_union",
                               "events1": [list(x) for x in small[1]], "events2": [list(x) for x in small[2]],
@@ -487,9 +491,16 @@ def main(argv=None):
     return ck.finish(RULE)
 
 
-EXTRA_TARGETS = []
-GEN_KERNELS = []
-TIES = {"Timeslot.*": "A", "_intersecting_eventpairs": "A", "filter_period_intersect": "A", "period_union": "A"}
+EXTRA_TARGETS = ["Bridge/BridgeTimeslot.v"]
+GEN_KERNELS = ["Timeslot.duration", "Timeslot.contains", "Timeslot.overlaps", "Timeslot.intersection",
+               "Timeslot.adjacent", "Timeslot.gap", "Timeslot.union", "_get_event_period",
+               "_replace_event_period", "_intersecting_eventpairs.body", "period_union.body"]
+TIES = {"Timeslot.duration/contains/overlaps/intersection/adjacent/gap/union": "A+B",
+        "_get_event_period, _replace_event_period": "A+B",
+        "_intersecting_eventpairs": "A+B (loop body as a step function; loop skeleton and sorts matched "
+                                    "syntactically by the translator and tied by A)",
+        "period_union": "A+B (loop body; sort, seeding and data-clearing matched syntactically, tied by A)",
+        "filter_period_intersect": "A"}
 
 if __name__ == "__main__":
     sys.exit(main())
